@@ -643,11 +643,50 @@ class Interp:
             raise Unsupported("with: several items")
         item = st.items[0]
         cm = self.ev(item.context_expr, env, fr, ctx)
+        if isinstance(cm, EnvObj) and cm.kind == "suppress":
+            # contextlib.suppress(*classes): the body's exception is swallowed iff it is an instance of one of the classes;
+            # return / break / continue pass through untouched (they are not PyExc)
+            if item.optional_vars is not None:
+                self.assign(item.optional_vars, None, env, fr, ctx)
+            try:
+                self.block(st.body, env, fr, ctx)
+            except PyExc as pe:
+                if not any(exc_isinstance(pe.exc.cls, c.name) for c in cm.state["classes"]):
+                    raise
+            return
         if not isinstance(cm, EnvObj) or cm.kind != "file":
             raise Unsupported("with on a non-file object")
         if item.optional_vars is not None:
             self.assign(item.optional_vars, cm, env, fr, ctx)
         self.block(st.body, env, fr, ctx)
+
+    def st_Match(self, st, env, fr, ctx):
+        """match with value patterns (dotted names / literals), None/True/False, or-patterns, the wildcard and a bare capture;
+        guards allowed.  Class, sequence and mapping patterns are out of subset."""
+        subject = self.ev(st.subject, env, fr, ctx)
+        for case in st.cases:
+            env2 = env
+            if self.pattern_matches(case.pattern, subject, env2, fr, ctx):
+                if case.guard is not None and not ctx.branch(self.truth(self.ev(case.guard, env2, fr, ctx), ctx)):
+                    continue
+                self.block(case.body, env2, fr, ctx)
+                return
+
+    def pattern_matches(self, pat, subject, env, fr, ctx):
+        if isinstance(pat, ast.MatchValue):
+            return ctx.branch(self.truth(self.equals(subject, self.ev(pat.value, env, fr, ctx), ctx), ctx))
+        if isinstance(pat, ast.MatchSingleton):
+            r = self.identical(subject, pat.value, ctx)
+            return ctx.branch(r) if not isinstance(r, bool) else r
+        if isinstance(pat, ast.MatchOr):
+            return any(self.pattern_matches(p, subject, env, fr, ctx) for p in pat.patterns)
+        if isinstance(pat, ast.MatchAs):
+            if pat.pattern is not None and not self.pattern_matches(pat.pattern, subject, env, fr, ctx):
+                return False
+            if pat.name is not None:
+                env[pat.name] = subject
+            return True
+        raise Unsupported("match pattern " + type(pat).__name__)
 
     def st_Assert(self, st, env, fr, ctx):
         c = self.truth(self.ev(st.test, env, fr, ctx), ctx)
@@ -730,6 +769,11 @@ class Interp:
     def ev_Lambda(self, e, env, fr, ctx):
         return Closure(e, env, fr)
 
+    def ev_NamedExpr(self, e, env, fr, ctx):
+        v = self.ev(e.value, env, fr, ctx)
+        self.assign(e.target, v, env, fr, ctx)
+        return v
+
     def ev_IfExp(self, e, env, fr, ctx):
         c = self.truth(self.ev(e.test, env, fr, ctx), ctx)
         return self.ev(e.body if ctx.branch(c) else e.orelse, env, fr, ctx)
@@ -791,6 +835,11 @@ class Interp:
                 raise Unsupported("slice step")
             return self.getslice(o, lo, hi, ctx)
         k = self.ev(e.slice, env, fr, ctx)
+        if isinstance(k, slice):
+            # a slice object built elsewhere (module constant): the same as the literal slice
+            if k.step is not None:
+                raise Unsupported("slice step")
+            return self.getslice(o, k.start, k.stop, ctx)
         return self.getitem(o, k, ctx)
 
     def ev_Call(self, e, env, fr, ctx):
@@ -926,6 +975,53 @@ class Interp:
             return True
         raise Unsupported(f"truth of {type(v).__name__}")
 
+    def percent_format(self, fmt, arg, ctx):
+        """'literal %d %02x %s %%' % value-or-tuple, for a literal format text and the conversions d, i, x, X, s with an optional
+        0 flag and width; anything else is out of subset"""
+        import re
+        from . import seqops
+        parts = re.split(r"(%(?:%|[-#0 +]*\d*(?:\.\d+)?[a-zA-Z]))", fmt)
+        convs = [p for p in parts[1::2] if p != "%%"]
+        if isinstance(arg, tuple):
+            vals = list(arg)
+        elif isinstance(arg, PyList) or isinstance(arg, (PyDict, dict)):
+            vals = [arg]
+            if isinstance(arg, (PyDict, dict)):
+                raise Unsupported("%-formatting with a mapping")
+        else:
+            vals = [arg]
+        if len(vals) != len(convs):
+            raise PyExc(ExcVal("TypeError", ("not enough / too many arguments for format string",)))
+        out = ""
+        k = 0
+        for i, p_ in enumerate(parts):
+            if i % 2 == 0:
+                piece = p_
+            elif p_ == "%%":
+                piece = "%"
+            else:
+                m = re.fullmatch(r"%(0?)(\d*)([dixXs])", p_)
+                if not m:
+                    raise Unsupported(f"%-format conversion {p_!r}")
+                zero, width, typ = m.groups()
+                v = vals[k]
+                k += 1
+                if typ == "s":
+                    if width or zero:
+                        raise Unsupported("%s with a width")
+                    piece = seqops.format_value(self, v, "", ctx) if not isinstance(v, (str, Seq)) else v
+                else:
+                    if isinstance(v, bool) or not (isinstance(v, int) or is_symint(v)):
+                        if isinstance(v, (str, Seq, bytes)) or v is None:
+                            raise PyExc(ExcVal("TypeError", (f"%{typ} format: a number is required",)))
+                        raise Unsupported(f"%{typ} of {type(v).__name__}")
+                    if typ in "di" and not zero and not width:
+                        piece = seqops.str_of_int(v, ctx)        # no path fork for small non-negative numbers
+                    else:
+                        piece = seqops.format_int(v, zero + width + ("d" if typ == "i" else typ), ctx)
+            out = piece if (isinstance(out, str) and out == "") else self.add(out, piece, ctx)
+        return out
+
     def binop(self, op, a, b, ctx):
         name = type(op).__name__
         if _concrete(a) and _concrete(b):
@@ -946,6 +1042,8 @@ class Interp:
             return simp(z3.Or(zb(a), zb(b)) if name == "BitOr" else z3.And(zb(a), zb(b)))
         if name == "Add":
             return self.add(a, b, ctx)
+        if name == "Mod" and isinstance(a, str):
+            return self.percent_format(a, b, ctx)
         if name == "Mult" and (isinstance(a, (str, bytes, Seq)) or isinstance(b, (str, bytes, Seq))):
             s, n = (a, b) if isinstance(a, (str, bytes, Seq)) else (b, a)
             if isz(n) and ctx.concrete_int(n) is None:
